@@ -245,6 +245,16 @@ fn get_activity_time(activity: &FormatActivity, stop_schedule: &FormatSchedule) 
         .unwrap_or_else(|| TimeWindow::new(parse_time(&stop_schedule.arrival), parse_time(&stop_schedule.departure)))
 }
 
-fn get_route_start_time(tour: &FormatTour) -> Result<Timestamp, GenericError> {
-    tour.stops.first().map(|stop| parse_time(&stop.schedule().departure)).ok_or_else(|| "empty route".into())
+/// Gets actual departure time of the tour: when jobs are served at the first stop, it differs from the stop's one.
+pub(crate) fn get_route_start_time(tour: &FormatTour) -> Result<Timestamp, GenericError> {
+    tour.stops
+        .first()
+        .map(|stop| {
+            stop.activities()
+                .first()
+                .filter(|activity| activity.activity_type == "departure")
+                .and_then(|activity| activity.time.as_ref())
+                .map_or_else(|| parse_time(&stop.schedule().departure), |time| parse_time(&time.end))
+        })
+        .ok_or_else(|| "empty route".into())
 }
